@@ -207,7 +207,10 @@ func (x *explorer) execute(t *testing.T, prefix []string, keys []string, avoid m
 			switch {
 			case a.Label == "END":
 				if len(w.pending) != 0 {
-					panic("instruction still blocked at quiescence: " + w.pending[0].In.label())
+					// nothing is held by the daemon and every goroutine is blocked, yet a call has not returned
+					w.addFinding("C05|hang|"+kindName[w.pending[0].In.K]+"|instruction-never-returns", map[string]interface{}{
+						"instruction": w.pending[0].In.label(), "state": key,
+						"expected": "Track/Untrack/Recover return once the daemon has answered every call"})
 				}
 				o1 := w.clause1()
 				o2 := w.clause2()
@@ -404,6 +407,8 @@ func (x *explorer) account(t *testing.T, res *execResult, prefix []string) {
 	}
 	for _, f := range res.findings {
 		f.Detail["observations"] = res.obs
+		f.Detail["found_after"] = f.Detail["path"]
+		f.Detail["path"] = path
 		x.occurrences[f.Key]++
 		if b, ok := x.best[f.Key]; !ok || len(path) < len(b.Detail["path"].([]string)) {
 			x.best[f.Key] = f
@@ -446,9 +451,6 @@ func (x *explorer) reproduces(t *testing.T, path []string, key string) bool {
 			if f.Key == key {
 				return true
 			}
-		}
-		if !strings.Contains(strings.Join(path, " "), "I:RA") {
-			return false // nothing uncontrolled on this path
 		}
 	}
 	return false
